@@ -132,6 +132,26 @@ def fake_modules(host):
                     raise AttributeError(attr)
                 return getattr(_real, attr)
             mods['os'].__dict__['__getattr__'] = os_getattr
+        if osname == 'nt':
+            mods['os'].__dict__['linesep'] = '\r\n'
+        if host == 'scrambled-2':
+            # a big-endian host: formats without an explicit byte order ('4Q', '@..', '=..') pack and unpack big-endian there
+            import struct as real_struct
+
+            def be(fmt):
+                if isinstance(fmt, bytes):
+                    fmt = fmt.decode()
+                if fmt[:1] in '@=':
+                    return '>' + fmt[1:]
+                if fmt[:1] in '<>!':
+                    return fmt
+                return '>' + fmt
+            st_over = {'pack': lambda fmt, *a: real_struct.pack(be(fmt), *a), 'unpack': lambda fmt, b: real_struct.unpack(be(fmt), b),
+                       'unpack_from': lambda fmt, b, offset=0: real_struct.unpack_from(be(fmt), b, offset),
+                       'pack_into': lambda fmt, buf, off, *a: real_struct.pack_into(be(fmt), buf, off, *a),
+                       'iter_unpack': lambda fmt, b: real_struct.iter_unpack(be(fmt), b), 'calcsize': lambda fmt: real_struct.calcsize(be(fmt)),
+                       'Struct': lambda fmt: real_struct.Struct(be(fmt))}
+            mods['struct'] = proxy('struct', real_struct, st_over)
         # the C data model: a long is 32 bits on the 'nt' hosts
         import ctypes as real_ctypes
         ct_over = {'c_long': real_ctypes.c_int32, 'c_ulong': real_ctypes.c_uint32} if osname == 'nt' else {}
@@ -139,6 +159,8 @@ def fake_modules(host):
         mods['sys'] = proxy('sys', real_sys, {'platform': plat, 'getfilesystemencoding': lambda: enc[0],
                                              'getfilesystemencodeerrors': lambda: enc[1]})
         mods['platform'] = proxy('platform', real_platform, {'system': lambda: system})
+        if 'struct' in mods:
+            mods['sys'].__dict__['byteorder'] = 'big'
     return mods
 
 
